@@ -103,7 +103,7 @@ def main():
             json.dump(results, open(results_path, "w"), indent=1)
     finally:
         sh("git -C /repo worktree remove --force " + WT)
-        sh("rm -f /verif/.build/harness-alt.test")
+        sh("rm -f /verif/.build/harness-alt*.test")
     json.dump(results, open(results_path, "w"), indent=1)
 
 main()
